@@ -792,7 +792,7 @@ func body(w *hx.W) {
 	// ---- hostile inputs
 	rng := w.Rand("hostile")
 	states := []string{"notauth", "auth", "selected"}
-	n := w.Pick(2500, 60000)
+	n := w.Pick(2500, 15000)
 	for i := 0; i < n; i++ {
 		k := 1 + rng.Intn(3)
 		lines := make([]string, k)
@@ -826,7 +826,7 @@ func body(w *hx.W) {
 			}
 		}
 	}
-	for i := 0; i < w.Pick(300, 5000); i++ {
+	for i := 0; i < w.Pick(300, 2500); i++ {
 		g := make([]byte, 1+rng.Intn(200))
 		for k := range g {
 			g[k] = byte(rng.Intn(256))
